@@ -204,6 +204,24 @@ def float_mode(chk: Check, n):
         if abs(p1.pvalue - p3.pvalue) > 1e-12 * max(p1.pvalue, 1e-300):
             chk.fail("scalar and mapping form of the ratio disagree",
                      dict(input=inp, scalar=float(p1.pvalue), mapping=float(p3.pvalue)))
+        # ONE SampleRatio object with a mapping over three variants, used for every pair in turn (as Experiment.analyze
+        # with all_variants=True does) and for a pair with its roles swapped: each answer must be the one a fresh object
+        # with the pair's own scalar ratio gives
+        if i % 2 == 0:
+            c3 = rng.randint(1, 3000)
+            rm = {0: 1.0, 1: r, 2: rng.choice([0.5, 2.0, 3.0])}
+            counts = {0: A(cc), 1: A(ct), 2: A(c3)}
+            one = tt.SampleRatio(rm, method=method, correction=corr)
+            for (a_, b_) in ((0, 1), (0, 2), (1, 2), (2, 1), (1, 0), (0, 2)):
+                got = one.analyze(counts, a_, b_)
+                want3 = tt.SampleRatio(rm[b_] / rm[a_], method=method, correction=corr).analyze(counts, a_, b_)
+                if (got.control, got.treatment) != (want3.control, want3.treatment) or \
+                        abs(got.pvalue - want3.pvalue) > 1e-9 * max(want3.pvalue, 1e-300) + 1e-15:
+                    chk.fail("a SampleRatio object with a per-variant mapping, reused for several pairs, gives a p-value "
+                             "that is not the test of ratio[treatment]/ratio[control] for the pair at hand",
+                             dict(input=dict(inp, mapping=rm, counts=[cc, ct, c3]), pair=[a_, b_], observed=float(got.pvalue),
+                                  expected=float(want3.pvalue)))
+                    break
         # independent closed form for the normal approximation
         n_ = cc + ct
         if method == "norm" or (method == "auto" and n_ >= 1000):
